@@ -155,7 +155,7 @@ static void gen_pcm(vrng *r, opus_int16 *pcm, int n, int ch, int kind)
 }
 
 /* ------------------------------------------------------------------ single encoder histories */
-typedef struct { char kind; int id; int v; int fsz; int bytes; int sig; } vop;   /* s g n r m c u E */
+typedef struct { char kind; int id; int v; int fsz; int bytes; int sig; int fmt; } vop;   /* s g n r m c u E; fmt: 0 = derive from the seed, 1/2/3 = opus_encode / opus_encode24 / opus_encode_float */
 
 static void enc_run(int Fs, int ch, int app, const vop *ops, int nops, vrng *r)
 {
@@ -186,15 +186,24 @@ static void enc_run(int Fs, int ch, int app, const vop *ops, int nops, vrng *r)
          long n = (o->fsz > 0 && o->fsz <= 200000) ? (long)o->fsz * ch : 0;   /* exact-size block: the encoder may read frame_size samples */
          opus_int16 *pcm = (opus_int16 *)malloc(n > 0 ? n * sizeof(opus_int16) : 2);
          int pseed = o->v ? o->v : (int)(vnext(r) % 1000000 + 1);   /* the signal is a function of (sig, pseed): a history replays alone */
+         int efmt = 0;
          { vrng pr; pr.s = (uint64_t)pseed * 0x9E3779B97F4A7C15ULL + (uint64_t)o->sig; if (n > 0) gen_pcm(&pr, pcm, o->fsz, ch, o->sig); }
          printf(" E%d:%d", o->fsz, o->bytes); fflush(stdout);
-         ret = opus_encode(st, pcm, o->fsz, out, o->bytes > 8000 ? 8000 : o->bytes);
+         {  /* all three entry points (each runs frame_size_select itself): 16-bit, 24-bit, float */
+            int fmt = o->fmt ? o->fmt - 1 : pseed % 3, mb = o->bytes > 8000 ? 8000 : o->bytes; long j;
+            efmt = fmt;
+            if (fmt == 0) ret = opus_encode(st, pcm, o->fsz, out, mb);
+            else if (fmt == 1) { opus_int32 *p24 = (opus_int32 *)malloc(n > 0 ? n * sizeof(opus_int32) : 4);
+               for (j = 0; j < n; j++) p24[j] = (opus_int32)pcm[j] * 256; ret = opus_encode24(st, p24, o->fsz, out, mb); free(p24); }
+            else { float *pf = (float *)malloc(n > 0 ? n * sizeof(float) : 4);
+               for (j = 0; j < n; j++) pf[j] = pcm[j] * (1.f / 32768.f); ret = opus_encode_float(st, pf, o->fsz, out, mb); free(pf); }
+         }
          printf(":%d:", ret < 0 ? ret : ret); enc_obs(stdout, st);
          {  /* what went on the wire: TOC, coded payload bytes (0 = DTX / TOC-only packet), frame count */
             int toc = 0, payload = 0, nfr = 0;
             if (ret > 0) { opus_int16 sz[48]; int k; unsigned char t; nfr = opus_packet_parse(out, ret, &t, NULL, sz, NULL);
                            toc = out[0]; for (k = 0; k < nfr; k++) payload += sz[k]; }
-            printf(":%d:%d:%d:%d:%d", toc, payload, nfr, o->sig, pseed);
+            printf(":%d:%d:%d:%d:%d:%d", toc, payload, nfr, o->sig, pseed, efmt);
          }
          fflush(stdout);
          free(pcm);
@@ -865,6 +874,13 @@ static void run_create(int level)
          create_one("mssur", 48000, nc, fam[i], 0, NULL, 2049, f);
          if (fam[i] == 3 || fam[i] == 2 || nc < 3) create_one("projenc", 48000, nc, fam[i], 0, NULL, 2049, f);
       }
+      /* every channel count up to 255 (and just beyond) for every family: the acceptance tables of
+         create_rejects_surround / create_rejects_projection on the implementation */
+      for (i = 0; i < 7; i++) for (nc = 41; nc <= 257; nc++) {
+         if (!level && !(nc % 8 == 0 || nc == 49 || nc == 51 || nc == 64 || nc == 66 || nc == 225 || nc == 227 || nc == 255)) continue;
+         if (fam[i] == 3 || level || nc >= 225) create_one("projenc", 48000, nc, fam[i], 0, NULL, 2049, -1);
+         if (fam[i] != 255 || level || nc % 32 == 0 || nc >= 255) create_one("mssur", 48000, nc, fam[i], 0, NULL, 2049, -1);
+      }
       create_one("mssur", 48000, 255, 255, 0, NULL, 2049, -1);
       create_one("mssur", 48000, 256, 255, 0, NULL, 2049, -1);
       create_one("mssur", 48000, 227, 2, 0, NULL, 2049, -1);
@@ -931,11 +947,11 @@ static void run_fssbig(void)
 /* ------------------------------------------------------------------ honour */
 static void run_honour(uint64_t seed, long cases)
 {
-   vrng r; long cidx; static unsigned char out[8000]; static opus_int16 pcm[5770 * 2];
+   vrng r; long cidx; static unsigned char out[8000]; static opus_int16 pcm[5770 * 2]; static opus_int32 p24[5770 * 2]; static float pf[5770 * 2];
    r.s = seed * 0xD1342543DE82EF95ULL + 5;
    for (cidx = 0; cidx < cases; cidx++) {
       int Fs = FSS[vbelow(&r, 5)], ch = vrange(&r, 1, 2), app = APPS[vbelow(&r, 3)];
-      int err, i, nframes, k = 0, f2 = 0, fsz, bytes, nsets = 0, sig;
+      int err, i, nframes, k = 0, f2 = 0, fsz, bytes, nsets = 0, sig, efmt;
       int sid[24], sval[24];
       OpusEncoder *st;
 #define ADD(id, v) do { sid[nsets] = (id); sval[nsets] = (v); nsets++; } while (0)
@@ -955,13 +971,19 @@ static void run_honour(uint64_t seed, long cases)
       if (vchance(&r, 25)) ADD(11002, vrange(&r, 1000, 1002));
       if (vchance(&r, 5)) ADD(10024, 1);
       if (vchance(&r, 10)) ADD(11018, vrange(&r, -1, 100));
-      if (vchance(&r, 25)) ADD(4040, vrange(&r, 5000, 5009));
+      if (vchance(&r, 35)) ADD(4040, vrange(&r, 5000, 5009));
       {  static const int num[9] = {1, 2, 4, 8, 16, 24, 32, 40, 48};
          fsz = Fs / 400 * num[vchance(&r, 60) ? vbelow(&r, 5) : vbelow(&r, 9)];
-         if (vchance(&r, 3)) fsz += 1; }
+         if (vchance(&r, 3)) fsz += 1;
+         /* a fixed OPUS_SET_EXPERT_FRAME_DURATION with MORE samples supplied than it needs: the packet must last the
+            fixed duration, not the buffer */
+         if (nsets && sid[nsets - 1] == 4040 && sval[nsets - 1] != 5000 && vchance(&r, 60)) {
+            int d = Fs / 400 * num[sval[nsets - 1] - 5001];
+            fsz = vchance(&r, 50) ? d * (1 + (int)vbelow(&r, 3)) : d + (int)vbelow(&r, 2 * Fs / 100);
+            if (fsz > 5760) fsz = 5760; } }
       { static const int b[] = {1, 2, 3, 4, 8, 20, 40, 100, 300, 1275, 1276, 4000}; bytes = vchance(&r, 55) ? 1276 : b[vbelow(&r, 12)]; }
       nframes = vrange(&r, 3, fsz > Fs / 25 ? 5 : 9);
-      sig = vbelow(&r, 5);
+      sig = vbelow(&r, 5); efmt = vbelow(&r, 3);
       if (ch == 2 && vchance(&r, 35)) { k = vrange(&r, 1, nframes - 1); f2 = vchance(&r, 70) ? 1 : vchance(&r, 70) ? 2 : -1000; }
       printf("I ctl honour %d %d %d ", Fs, ch, app);
       if (!nsets) printf("-"); for (i = 0; i < nsets; i++) printf("%s%d:%d", i ? "," : "", sid[i], sval[i]);
@@ -975,7 +997,12 @@ static void run_honour(uint64_t seed, long cases)
          if (f2 && i == k) opus_encoder_ctl(st, OPUS_SET_FORCE_CHANNELS(f2));
          if (i >= 2 && sig == 3 && vchance(&r, 50)) s = 0;    /* speech-like bursts with pauses */
          gen_pcm(&r, pcm, fsz <= 5760 ? fsz : 5760, ch, s);
-         ret = opus_encode(st, pcm, fsz, out, bytes);
+         {  /* entry point by case: 16-bit, 24-bit, float */
+            int n = (fsz <= 5760 ? fsz : 5760) * ch, j;
+            if (efmt == 0) ret = opus_encode(st, pcm, fsz, out, bytes);
+            else if (efmt == 1) { for (j = 0; j < n; j++) p24[j] = (opus_int32)pcm[j] * 256; ret = opus_encode24(st, p24, fsz, out, bytes); }
+            else { for (j = 0; j < n; j++) pf[j] = pcm[j] * (1.f / 32768.f); ret = opus_encode_float(st, pf, fsz, out, bytes); }
+         }
          if (ret < 0) printf(" e%d:0:0", ret);
          else printf(" %d:%d:%d", ret, out[0], ret > 1 ? out[1] : -1);
          fflush(stdout);
@@ -1044,7 +1071,8 @@ static void run_lines(void)
             /* E<fsz>:<bytes>:…:<sig>:<pseed> (the last two fields); a bare E<fsz>:<bytes> uses signal 3, seed 1 */
             char *f[64]; int nf = 0; char *q = t + 1; f[nf++] = q; while ((q = strchr(q, ':')) && nf < 64) { *q++ = 0; f[nf++] = q; }
             ops[n].fsz = mops[n].fsz = atoi(f[0]); ops[n].bytes = mops[n].bytes = nf > 1 ? atoi(f[1]) : 1276;
-            ops[n].sig = mops[n].sig = nf > 3 ? atoi(f[nf - 2]) : 3; ops[n].v = mops[n].v = nf > 3 ? atoi(f[nf - 1]) : 1;
+            if (ms) { ops[n].sig = mops[n].sig = nf > 3 ? atoi(f[nf - 2]) : 3; ops[n].v = mops[n].v = nf > 3 ? atoi(f[nf - 1]) : 1; }
+            else { ops[n].sig = nf > 4 ? atoi(f[nf - 3]) : 3; ops[n].v = nf > 4 ? atoi(f[nf - 2]) : 1; ops[n].fmt = nf > 4 ? atoi(f[nf - 1]) + 1 : 1; }
          } else if (kind != 'r') continue;
          n++;
       }
